@@ -1,6 +1,6 @@
 /* C15: Request/Response Authenticator of include/proto/radius.h, --dfcc, md5_init/update/final replaced
  * by the ghost-stream contracts of stubs/radius_md5.h; packet of symbolic size (validated header),
- * secret of symbolic length.  -DVF_FN_calc | -DVF_FN_chk */
+ * secret of symbolic length.  -DVF_FN_calc | -DVF_FN_chk | -DVF_FN_ma_calc (Message-Authenticator, hmac_md5_* replaced) */
 #define VF_RAD_LIBC_LOOP
 #define VF_RAD_MD5_CHAIN
 #include "stubs/radius_md5.h"
@@ -12,6 +12,9 @@ size_t vf_rad_span, vf_rad_k, vf_rad_z, vf_rad_len_old, vf_rad_blk, vf_rad_m;
 uint8_t vf_rad_old;
 size_t vf_md5_k, vf_md5_n, vf_md5_len[VF_MD5_TBL];
 uint8_t vf_md5_at[VF_MD5_TBL], vf_md5_dig[VF_MD5_TBL][16];
+const uint8_t *vf_hm_key[VF_HM_TBL + 1];
+size_t vf_hm_key_len[VF_HM_TBL + 1], vf_hm_n, vf_hm_len[VF_HM_TBL];
+uint8_t vf_hm_at[VF_HM_TBL], vf_hm_dig[VF_HM_TBL][16];
 
 void harness(void) {
 	VF_NONDET(size_t, span);
@@ -33,8 +36,18 @@ void harness(void) {
 	r = radius_pkt_authenticator_calc((rad_pkt_hdr_p)pkt, key, key_len, inside, (rad_pkt_hdr_p)req, out);
 #elif defined(VF_FN_chk)
 	r = radius_pkt_authenticator_chk((rad_pkt_hdr_p)pkt, key, key_len, inside, (rad_pkt_hdr_p)req);
+#elif defined(VF_FN_ma_calc)
+	VF_NONDET(size_t, off);
+	VF_FRESH_PTR(uint8_t, out, 16);
+	vf_hm_n = 0;
+#ifdef VF_REPLAY
+	rad_pkt_attr_p attr = (rad_pkt_attr_p)(pkt + ((off >= 20 && off + 2 <= span) ? off : 20));
 #else
-#error "select VF_FN_calc or VF_FN_chk"
+	rad_pkt_attr_p attr;
+#endif
+	r = radius_pkt_attr_msg_authenticator_calc((rad_pkt_hdr_p)pkt, attr, key, key_len, inside, (rad_pkt_hdr_p)req, out);
+#else
+#error "select VF_FN_calc, VF_FN_chk or VF_FN_ma_calc"
 #endif
 	VF_NATIVE_POST(r == 0 || r == EINVAL || r == EBADMSG, "return code");
 	VF_CANARY("radius authenticator harness end");
